@@ -164,7 +164,7 @@ func bfs(r *ev.Run, sp space, depth int, budget time.Duration) bfsResult {
 					if hi > len(frontier) {
 						hi = len(frontier)
 					}
-					if r.OverBudget(budget) {
+					if r.Elapsed() > budget {
 						stop.Store(true)
 						break
 					}
